@@ -371,7 +371,7 @@ def run(ctx):
     ctx.map("checks.c14", "fft_task", tasks, timeout=3000)
     if ctx.counters.get("fft_pairwise_convolution_hits", 0) < 4:
         ctx.inconc("FFT-path pairwise cache hits not observed")
-    tasks = [{"seed": ctx.seed, "shard": i, "population": 300000 if quick else 1500000, "D": 1 + i % 2, "G": [5, 11, 3, 21][i % 4]}
+    tasks = [{"seed": ctx.seed, "shard": i, "population": 300000 if quick else 1000000, "D": 1 + i % 2, "G": [5, 11, 3, 21][i % 4]}
              for i in range(4 if quick else 16)]
     ctx.map("checks.c14", "collision_task", tasks, timeout=3000)
     if ctx.counters.get("cache_keys_collected", 0) < 1000000:
